@@ -191,7 +191,13 @@ def apply_mutator(obj, s, st_, ctx):
     if m == "setW":
         if not obj.rational:
             return obj, None
-        obj.weights = _wts(count, s["wseed"])
+        if s["wseed"] % 3 == 0:
+            w = obj.weights              # read / edit in place / write back
+            for j, x in enumerate(_wts(count, s["wseed"])):
+                w[j] = x
+            obj.weights = w
+        else:
+            obj.weights = _wts(count, s["wseed"])
         return obj, m
     if m == "setkv":
         k = s["k"] % pd
@@ -218,9 +224,16 @@ def apply_mutator(obj, s, st_, ctx):
             obj.delta = 1.0 / n
         return obj, m
     if m == "sample":
-        if not norm:
-            return obj, None            # sample_size on non-normalised knot vectors is a C17 matter
         n = s["n"] if pd < 3 else min(s["n"], 4)
+        if pd == 1 and s["ints"][2] % 12 == 0:
+            # a one-step change at a large sample size: the delta moves by less than 1e-7
+            big = 3400 + s["ints"][3] % 500
+            obj.sample_size = big
+            _ = obj.evalpts
+            obj.sample_size = big + 1
+            ctx.check(len(obj.evalpts) == big + 1, "stale-evalpts", "sample_size %d -> %d but evalpts still has %d points" % (big, big + 1, len(obj.evalpts)))
+            obj.sample_size = n
+            return obj, m
         obj.sample_size = n
         return obj, m
     if m == "insert":
